@@ -329,10 +329,9 @@ class LabelBase(INET):
         return INET.__eq__(self, other)
 
     def __hash__(self) -> int:
-        # _packed includes everything; use _has_addpath as discriminator
-        if self._has_addpath:
-            return hash(self._packed)
-        return hash(b'disabled' + self._packed)
+        # equality is decided by index(), which leaves the label stack out: the hash has to
+        # be taken from the same bytes, or two equal routes land in different buckets
+        return hash(self.index())
 
     def __copy__(self) -> Self:
         new = self.__class__.__new__(self.__class__)
